@@ -267,10 +267,12 @@ func (w *Whisper) FetchFromArchive(arhiveID int, from, until, now Timestamp) (*T
 
 func (w *Whisper) findBestArchive(t, now Timestamp) int {
 	var archiveID int
-	diff := now.Sub(t)
+	// NOTE: now.Sub(t) would overflow Duration (int32) when t is more than
+	// 2^31-1 seconds before now, e.g. t == 0 after the year 2038.
+	diff := int64(now) - int64(t)
 	for i, retention := range w.ArchiveInfoList() {
 		archiveID = i
-		if retention.MaxRetention() >= diff {
+		if int64(retention.MaxRetention()) >= diff {
 			break
 		}
 	}
